@@ -447,6 +447,7 @@ theorem readAt_correct (file : Bytes) (ks1 ks2 : Order) (st : State) (hinv : Inv
         | (st', .err c) => (st', .ret [] (.other c))
         | (st', .panic) => (st', .panic) := by
       simp only [r, readAt, if_neg h0]
+      rfl
     generalize hgr : getRange ks1 ks2 none none (file.length : Int) st off pLen f = g at hg hr
     obtain ⟨g1, g2⟩ := g
     obtain ⟨hi, hcase⟩ := hg
@@ -517,5 +518,414 @@ theorem remoteReadAt_contract (file : Bytes) (off ln : Nat) (attempts : List Htt
         congr 1; omega
     · have : (status != 206) = true := by simpa using hst
       simp [this] at hok
+
+/-! ## the structural invariant: unique keys, no nested ranges, exact space accounting
+    (holds for EVERY history: no assumption on the fetcher, the SetRange callers or the contexts) -/
+
+def Entry.Shape (size : Int) (en : Entry) : Prop :=
+  0 ≤ en.s ∧ en.s ≤ en.e ∧ en.e ≤ size ∧ (en.v.length : Int) = en.e - en.s
+
+/-- neither range contains the other; in particular the keys differ -/
+def Apart (a b : Entry) : Prop := containsB a.s a.e b.s b.e = false ∧ containsB b.s b.e a.s a.e = false
+
+theorem Apart.symm {a b : Entry} (h : Apart a b) : Apart b a := ⟨h.2, h.1⟩
+
+/-- total number of cached bytes -/
+def lens (l : List Entry) : Nat := (l.map fun en => en.v.length).sum
+
+theorem lens_append (a b : List Entry) : lens (a ++ b) = lens a + lens b := by simp [lens, List.sum_append]
+theorem lens_nil : lens [] = 0 := rfl
+theorem lens_cons (x : Entry) (l : List Entry) : lens (x :: l) = x.v.length + lens l := by simp [lens]
+theorem lens_perm {a b : List Entry} (h : a.Perm b) : lens a = lens b := (h.map _).sum_nat
+
+structure WF (size : Int) (st : State) : Prop where
+  shape : ∀ en ∈ st.cache, en.Shape size
+  apart : st.cache.Pairwise Apart
+  occ : st.occ = lens st.cache % two64
+
+theorem WF.empty (size : Int) : WF size State.empty := ⟨(by intro en h; cases h), List.Pairwise.nil, rfl⟩
+
+theorem setLoop_sublist (s e : Int) : ∀ (todo kept : List Entry) (occ : Nat) (ctx : Ctx),
+    ((setLoop s e todo kept occ ctx).2.1).Sublist (kept ++ todo)
+  | [], kept, occ, ctx => by simp [setLoop]
+  | x :: rest, kept, occ, ctx => by
+    simp only [setLoop]
+    split
+    · exact List.Sublist.refl _
+    · split
+      · exact List.Sublist.refl _
+      · split
+        · exact (setLoop_sublist s e rest kept _ _).trans
+            (List.Sublist.append (List.Sublist.refl _) (List.sublist_cons_self x rest))
+        · have := setLoop_sublist s e rest (kept ++ [x]) occ ctx.tick
+          simpa [List.append_assoc] using this
+
+theorem setLoop_occ (s e : Int) : ∀ (todo kept : List Entry) (occ : Nat) (ctx : Ctx),
+    occ = lens (kept ++ todo) % two64 →
+    (setLoop s e todo kept occ ctx).2.2 = lens (setLoop s e todo kept occ ctx).2.1 % two64
+  | [], kept, occ, ctx, h => by simpa [setLoop] using h
+  | x :: rest, kept, occ, ctx, h => by
+    simp only [setLoop]
+    split
+    · exact h
+    · split
+      · exact h
+      · split
+        · apply setLoop_occ s e rest kept _ _
+          rw [lens_append, lens_cons] at h
+          rw [lens_append]
+          unfold sub64 two64 at *
+          omega
+        · apply setLoop_occ s e rest (kept ++ [x]) occ ctx.tick
+          simpa [List.append_assoc] using h
+
+/-- when the loop runs to its end, everything it kept (beyond `kept`) neither contains nor is contained in the new range -/
+theorem setLoop_done (s e : Int) : ∀ (todo kept : List Entry) (occ : Nat) (ctx : Ctx),
+    (setLoop s e todo kept occ ctx).1 = .done →
+    ∀ en ∈ (setLoop s e todo kept occ ctx).2.1, en ∈ kept ∨ (containsB en.s en.e s e = false ∧ containsB s e en.s en.e = false)
+  | [], kept, occ, ctx, _, en, hen => by simp [setLoop] at hen; exact Or.inl hen
+  | x :: rest, kept, occ, ctx, hd, en, hen => by
+    by_cases h1 : ctx.done = true
+    · rw [setLoop, if_pos h1] at hd; cases hd
+    · by_cases h2 : containsB x.s x.e s e = true
+      · rw [setLoop, if_neg h1, if_pos h2] at hd; cases hd
+      · by_cases h3 : containsB s e x.s x.e = true
+        · rw [setLoop, if_neg h1, if_neg h2, if_pos h3] at hd hen
+          exact setLoop_done s e rest kept _ _ hd en hen
+        · rw [setLoop, if_neg h1, if_neg h2, if_neg h3] at hd hen
+          rcases setLoop_done s e rest (kept ++ [x]) _ _ hd en hen with h | h
+          · rcases List.mem_append.mp h with h' | h'
+            · exact Or.inl h'
+            · simp at h'; subst h'
+              exact Or.inr ⟨by simpa using h2, by simpa using h3⟩
+          · exact Or.inr h
+
+theorem delLoop_sublist (ex : Entry → Bool) : ∀ (todo kept : List Entry) (occ : Nat) (ctx : Ctx),
+    ((delLoop ex todo kept occ ctx).1).Sublist (kept ++ todo)
+  | [], kept, occ, ctx => by simp [delLoop]
+  | x :: rest, kept, occ, ctx => by
+    simp only [delLoop]
+    split
+    · exact List.Sublist.refl _
+    · split
+      · exact (delLoop_sublist ex rest kept _ _).trans
+          (List.Sublist.append (List.Sublist.refl _) (List.sublist_cons_self x rest))
+      · have := delLoop_sublist ex rest (kept ++ [x]) occ ctx.tick
+        simpa [List.append_assoc] using this
+
+theorem delLoop_occ (ex : Entry → Bool) : ∀ (todo kept : List Entry) (occ : Nat) (ctx : Ctx),
+    occ = lens (kept ++ todo) % two64 →
+    (delLoop ex todo kept occ ctx).2 = lens (delLoop ex todo kept occ ctx).1 % two64
+  | [], kept, occ, ctx, h => by simpa [delLoop] using h
+  | x :: rest, kept, occ, ctx, h => by
+    simp only [delLoop]
+    split
+    · exact h
+    · split
+      · apply delLoop_occ ex rest kept _ _
+        rw [lens_append, lens_cons] at h
+        rw [lens_append]
+        unfold sub64 two64 at *
+        omega
+      · apply delLoop_occ ex rest (kept ++ [x]) occ ctx.tick
+        simpa [List.append_assoc] using h
+
+theorem setRange_wf (ks : Order) (ctx : Ctx) (size : Int) (st : State) (hwf : WF size st) (start ln : Int) (v : Bytes) :
+    WF size (setRange ks ctx size st start ln v).1 := by
+  unfold setRange
+  simp only []
+  split
+  · exact hwf
+  · rename_i hval
+    split
+    · exact hwf
+    · rename_i hlen
+      have hperm := reorder_perm ks st.cache
+      have hap : (reorder ks st.cache).Pairwise Apart := hperm.symm.pairwise hwf.apart Apart.symm
+      have hsub := setLoop_sublist start (wrap64 (start + ln)) (reorder ks st.cache) [] st.occ ctx
+      have hocc := setLoop_occ start (wrap64 (start + ln)) (reorder ks st.cache) [] st.occ ctx
+        (by rw [hwf.occ, List.nil_append, lens_perm hperm])
+      have hdone := setLoop_done start (wrap64 (start + ln)) (reorder ks st.cache) [] st.occ ctx
+      have hshape : ∀ en ∈ (setLoop start (wrap64 (start + ln)) (reorder ks st.cache) [] st.occ ctx).2.1, en.Shape size := by
+        intro en hen
+        have := hsub.subset hen
+        simp only [List.nil_append, mem_reorder] at this
+        exact hwf.shape en this
+      have hap2 : ((setLoop start (wrap64 (start + ln)) (reorder ks st.cache) [] st.occ ctx).2.1).Pairwise Apart :=
+        List.Pairwise.sublist (by simpa using hsub) hap
+      generalize setLoop start (wrap64 (start + ln)) (reorder ks st.cache) [] st.occ ctx = res at *
+      obtain ⟨en', c, o⟩ := res
+      simp only at hocc hshape hap2 hdone
+      cases en' with
+      | cancelled => exact ⟨hshape, hap2, hocc⟩
+      | superset => exact ⟨hshape, hap2, hocc⟩
+      | done =>
+        have hd := hdone rfl
+        have hfilter : c.filter (fun en => !sameKey en start (wrap64 (start + ln))) = c := by
+          rw [List.filter_eq_self]
+          intro a ha
+          rcases hd a ha with h | h
+          · cases h
+          · simp only [sameKey, Bool.not_eq_true', Bool.and_eq_false_iff, decide_eq_false_iff_not]
+            simp only [containsB, Bool.and_eq_false_iff, decide_eq_false_iff_not] at h
+            omega
+        simp only [hfilter]
+        simp only [invalidB, Bool.or_eq_true, decide_eq_true_eq, not_or] at hval
+        refine ⟨?_, ?_, ?_⟩
+        · intro en hen
+          rcases List.mem_append.mp hen with h | h
+          · exact hshape en h
+          · simp at h; subst h
+            refine ⟨?_, ?_, ?_, ?_⟩ <;> simp only <;> omega
+        · rw [List.pairwise_append]
+          refine ⟨hap2, List.pairwise_singleton _ _, ?_⟩
+          intro a ha b hb
+          simp at hb; subst hb
+          rcases hd a ha with h | h
+          · cases h
+          · exact ⟨h.1, h.2⟩
+        · rw [lens_append, lens_cons, lens_nil]
+          simp only [add64]
+          unfold two64 at *
+          omega
+
+theorem deleteOld_wf (ks : Order) (ctx : Ctx) (ex : Entry → Bool) (size : Int) (st : State) (hwf : WF size st) :
+    WF size (deleteOld ks ctx ex st) := by
+  have hperm := reorder_perm ks st.cache
+  have hsub := delLoop_sublist ex (reorder ks st.cache) [] st.occ ctx
+  refine ⟨?_, ?_, ?_⟩
+  · intro en hen
+    exact hwf.shape en (deleteOld_mem ks ctx ex st en hen)
+  · show ((delLoop ex (reorder ks st.cache) [] st.occ ctx).1).Pairwise Apart
+    exact List.Pairwise.sublist (by simpa using hsub) (hperm.symm.pairwise hwf.apart Apart.symm)
+  · show (delLoop ex (reorder ks st.cache) [] st.occ ctx).2 = lens (delLoop ex (reorder ks st.cache) [] st.occ ctx).1 % two64
+    exact delLoop_occ ex (reorder ks st.cache) [] st.occ ctx (by rw [hwf.occ, List.nil_append, lens_perm hperm])
+
+theorem step_wf (size : Int) (st : State) (hwf : WF size st) (x : Step) : WF size (step size st x).1 := by
+  cases x with
+  | check ks ctx start ln => simp only [step]; split <;> exact hwf
+  | fetchSet ks ctx start ln f =>
+    simp only [step, fetchSet]
+    split
+    · exact hwf
+    · split
+      · exact hwf
+      · exact setRange_wf ks ctx size st hwf start ln f.buf
+  | set ks ctx start ln v => exact setRange_wf ks ctx size st hwf start ln v
+  | deleteOld ks ctx exp => exact deleteOld_wf ks ctx exp.test size st hwf
+
+theorem run_wf (size : Int) : ∀ (steps : List Step) (st : State), WF size st → WF size (run size st steps).1
+  | [], _, h => h
+  | x :: xs, st, h => by simp only [run]; exact run_wf size xs _ (step_wf size st h x)
+
+/-! ## with live contexts nothing depends on the map iteration order -/
+
+theorem containsB_trans {a0 a1 b0 b1 c0 c1 : Int} (h1 : containsB a0 a1 b0 b1 = true) (h2 : containsB b0 b1 c0 c1 = true) :
+    containsB a0 a1 c0 c1 = true := by
+  simp only [containsB, Bool.and_eq_true, decide_eq_true_eq] at *
+  omega
+
+/-- a superset of the new range is cached: the loop deletes nothing (a deleted entry would be nested in the superset) -/
+theorem setLoop_live_superset (s e : Int) : ∀ (todo kept : List Entry) (occ : Nat), todo.Pairwise Apart →
+    (∃ x ∈ todo, containsB x.s x.e s e = true) → setLoop s e todo kept occ none = (.superset, kept ++ todo, occ)
+  | [], _, _, _, ⟨x, hx, _⟩ => by cases hx
+  | en :: rest, kept, occ, hp, ⟨x, hx, hc⟩ => by
+    rw [setLoop, if_neg (by simp [Ctx.done])]
+    by_cases h2 : containsB en.s en.e s e = true
+    · rw [if_pos h2]
+    · rw [if_neg h2]
+      have hxr : x ∈ rest := by
+        rcases List.mem_cons.mp hx with h | h
+        · subst h; exact absurd hc h2
+        · exact h
+      have hap : Apart en x := (List.pairwise_cons.mp hp).1 x hxr
+      have h3 : ¬ containsB s e en.s en.e = true := by
+        intro h3
+        have := containsB_trans hc h3
+        rw [hap.2] at this; cases this
+      rw [if_neg h3]
+      have := setLoop_live_superset s e rest (kept ++ [en]) occ (List.pairwise_cons.mp hp).2 ⟨x, hxr, hc⟩
+      simpa [Ctx.tick, List.append_assoc] using this
+
+/-- no superset is cached: the loop runs to its end and removes exactly the entries inside the new range -/
+theorem setLoop_live_done (s e : Int) : ∀ (todo kept : List Entry) (occ : Nat),
+    (∀ x ∈ todo, containsB x.s x.e s e = false) →
+    (setLoop s e todo kept occ none).1 = .done ∧
+    (setLoop s e todo kept occ none).2.1 = kept ++ todo.filter (fun en => !containsB s e en.s en.e)
+  | [], kept, occ, _ => by simp [setLoop]
+  | en :: rest, kept, occ, h => by
+    have h2 : ¬ containsB en.s en.e s e = true := by rw [h en (List.mem_cons_self ..)]; simp
+    have hr : ∀ x ∈ rest, containsB x.s x.e s e = false := fun x hx => h x (List.mem_cons_of_mem _ hx)
+    rw [setLoop, if_neg (by simp [Ctx.done]), if_neg h2]
+    by_cases h3 : containsB s e en.s en.e = true
+    · rw [if_pos h3]
+      have := setLoop_live_done s e rest kept (sub64 occ en.v.length) hr
+      simpa [Ctx.tick, List.filter_cons, h3] using this
+    · rw [if_neg h3]
+      have := setLoop_live_done s e rest (kept ++ [en]) occ hr
+      simpa [Ctx.tick, List.filter_cons, h3, List.append_assoc] using this
+
+theorem setRange_order_independent (ks ks' : Order) (size : Int) (st : State) (hwf : WF size st) (start ln : Int) (v : Bytes) :
+    (setRange ks none size st start ln v).2 = (setRange ks' none size st start ln v).2 ∧
+    (setRange ks none size st start ln v).1.cache.Perm (setRange ks' none size st start ln v).1.cache ∧
+    (setRange ks none size st start ln v).1.occ = (setRange ks' none size st start ln v).1.occ := by
+  have hw := setRange_wf ks none size st hwf start ln v
+  have hw' := setRange_wf ks' none size st hwf start ln v
+  suffices h : (setRange ks none size st start ln v).2 = (setRange ks' none size st start ln v).2 ∧
+      (setRange ks none size st start ln v).1.cache.Perm (setRange ks' none size st start ln v).1.cache by
+    exact ⟨h.1, h.2, by rw [hw.occ, hw'.occ, lens_perm h.2]⟩
+  have hpp : (reorder ks st.cache).Perm (reorder ks' st.cache) := (reorder_perm ks _).trans (reorder_perm ks' _).symm
+  unfold setRange
+  simp only []
+  split
+  · exact ⟨rfl, List.Perm.refl _⟩
+  · split
+    · exact ⟨rfl, List.Perm.refl _⟩
+    · by_cases hsup : ∃ x ∈ st.cache, containsB x.s x.e start (wrap64 (start + ln)) = true
+      · obtain ⟨x, hx, hc⟩ := hsup
+        rw [setLoop_live_superset _ _ _ [] st.occ ((reorder_perm ks _).symm.pairwise hwf.apart Apart.symm)
+              ⟨x, (mem_reorder ks _ x).mpr hx, hc⟩,
+            setLoop_live_superset _ _ _ [] st.occ ((reorder_perm ks' _).symm.pairwise hwf.apart Apart.symm)
+              ⟨x, (mem_reorder ks' _ x).mpr hx, hc⟩]
+        exact ⟨rfl, by simpa using hpp⟩
+      · have hno : ∀ (k : Order), ∀ x ∈ reorder k st.cache, containsB x.s x.e start (wrap64 (start + ln)) = false := by
+          intro k x hx
+          cases hc : containsB x.s x.e start (wrap64 (start + ln)) with
+          | false => rfl
+          | true => exact absurd ⟨x, (mem_reorder k _ x).mp hx, hc⟩ hsup
+        have h1 := setLoop_live_done start (wrap64 (start + ln)) (reorder ks st.cache) [] st.occ (hno ks)
+        have h2 := setLoop_live_done start (wrap64 (start + ln)) (reorder ks' st.cache) [] st.occ (hno ks')
+        generalize setLoop start (wrap64 (start + ln)) (reorder ks st.cache) [] st.occ none = r1 at h1
+        generalize setLoop start (wrap64 (start + ln)) (reorder ks' st.cache) [] st.occ none = r2 at h2
+        obtain ⟨e1, c1, o1⟩ := r1
+        obtain ⟨e2, c2, o2⟩ := r2
+        simp only [List.nil_append] at h1 h2
+        obtain ⟨rfl, rfl⟩ := h1
+        obtain ⟨rfl, rfl⟩ := h2
+        exact ⟨rfl, (((hpp.filter _).filter _).append_right _)⟩
+
+theorem deleteOld_live (ks : Order) (ex : Entry → Bool) (st : State) :
+    (deleteOld ks none ex st).cache = (reorder ks st.cache).filter (fun en => !ex en) := by
+  have h : ∀ (todo kept : List Entry) (occ : Nat),
+      (delLoop ex todo kept occ none).1 = kept ++ todo.filter (fun en => !ex en) := by
+    intro todo
+    induction todo with
+    | nil => intro kept occ; simp [delLoop]
+    | cons en rest ih =>
+      intro kept occ
+      rw [delLoop, if_neg (by simp [Ctx.done])]
+      cases hex : ex en with
+      | true => simp [ih, Ctx.tick, hex]
+      | false => simp [ih, Ctx.tick, hex, List.append_assoc]
+  unfold deleteOld
+  simp [h]
+
+theorem deleteOld_order_independent (ks ks' : Order) (ex : Entry → Bool) (size : Int) (st : State) (hwf : WF size st) :
+    (deleteOld ks none ex st).cache.Perm (deleteOld ks' none ex st).cache ∧
+    (deleteOld ks none ex st).occ = (deleteOld ks' none ex st).occ := by
+  have hp : (deleteOld ks none ex st).cache.Perm (deleteOld ks' none ex st).cache := by
+    rw [deleteOld_live, deleteOld_live]
+    exact ((reorder_perm ks _).trans (reorder_perm ks' _).symm).filter _
+  exact ⟨hp, by rw [(deleteOld_wf ks none ex size st hwf).occ, (deleteOld_wf ks' none ex size st hwf).occ, lens_perm hp]⟩
+
+/-- with a live context a lookup hits exactly when some cached entry covers the range, and then returns the file's bytes -/
+theorem scan_live (file : Bytes) (s e : Int) (hse : s ≤ e) : ∀ (l : List Entry), (∀ en ∈ l, en.Good file) →
+    scan s e l none = if l.any (fun en => containsB en.s en.e s e) then .hit (slice file s.toNat (e - s).toNat) else .miss
+  | [], _ => by simp [scan]
+  | en :: rest, h => by
+    rw [scan, if_neg (by simp [Ctx.done])]
+    by_cases hc : containsB en.s en.e s e = true
+    · rw [if_pos hc, good_goSlice (h en (List.mem_cons_self ..)) s e hse hc]
+      simp [hc]
+    · rw [if_neg hc]
+      have := scan_live file s e hse rest (fun x hx => h x (List.mem_cons_of_mem _ hx))
+      simp only [Ctx.tick, this, List.any_cons]
+      have : containsB en.s en.e s e = false := by simpa using hc
+      simp [this]
+
+theorem lookup_live (file : Bytes) (ks : Order) (st : State) (hinv : Inv file st) (s e : Int) (hse : s ≤ e) :
+    lookup ks none st s e =
+      if st.cache.any (fun en => containsB en.s en.e s e) then .hit (slice file s.toNat (e - s).toNat) else .miss := by
+  unfold lookup
+  split
+  · rename_i hem
+    have : st.cache = [] := by simpa using hem
+    simp [this]
+  · split
+    · rename_i en hf
+      have hmem : en ∈ st.cache := List.mem_of_find?_eq_some hf
+      have hk := List.find?_some hf
+      simp only [sameKey, Bool.and_eq_true, decide_eq_true_eq] at hk
+      have hany : st.cache.any (fun en => containsB en.s en.e s e) = true := by
+        rw [List.any_eq_true]
+        exact ⟨en, hmem, by simp [containsB, hk.1, hk.2]⟩
+      obtain ⟨_, _, _, g⟩ := hinv en hmem
+      rw [hany, if_pos rfl, g, hk.1, hk.2]
+    · rw [scan_live file s e hse _ (fun en hen => hinv en ((mem_reorder ks _ en).mp hen))]
+      have : (reorder ks st.cache).any (fun en => containsB en.s en.e s e) = st.cache.any (fun en => containsB en.s en.e s e) := by
+        rw [Bool.eq_iff_iff, List.any_eq_true, List.any_eq_true]
+        constructor
+        · rintro ⟨x, hx, hc⟩; exact ⟨x, (mem_reorder ks _ x).mp hx, hc⟩
+        · rintro ⟨x, hx, hc⟩; exact ⟨x, (mem_reorder ks _ x).mpr hx, hc⟩
+      rw [this]
+
+/-- with a live context the loop of `setRange` never ends "cancelled", and a "superset" end leaves a covering entry -/
+theorem setLoop_live_covers (s e : Int) : ∀ (todo kept : List Entry) (occ : Nat),
+    (setLoop s e todo kept occ none).1 = .done ∨
+    ((setLoop s e todo kept occ none).1 = .superset ∧ ∃ en ∈ (setLoop s e todo kept occ none).2.1, containsB en.s en.e s e = true)
+  | [], kept, occ => by simp [setLoop]
+  | en :: rest, kept, occ => by
+    rw [setLoop, if_neg (by simp [Ctx.done])]
+    by_cases h2 : containsB en.s en.e s e = true
+    · rw [if_pos h2]
+      exact Or.inr ⟨rfl, en, by simp, h2⟩
+    · rw [if_neg h2]
+      by_cases h3 : containsB s e en.s en.e = true
+      · rw [if_pos h3]; exact setLoop_live_covers s e rest kept _
+      · rw [if_neg h3]; exact setLoop_live_covers s e rest (kept ++ [en]) occ
+
+theorem setRange_live_covers (ks : Order) (size : Int) (st : State) (start ln : Int) (v : Bytes)
+    (hval : invalidB start (wrap64 (start + ln)) size = false) (hlen : (v.length : Int) = wrap64 (start + ln) - start) :
+    ∃ en ∈ (setRange ks none size st start ln v).1.cache, containsB en.s en.e start (wrap64 (start + ln)) = true := by
+  unfold setRange
+  simp only [hval, Bool.false_eq_true, if_false]
+  rw [if_neg (by simpa using hlen)]
+  have hc := setLoop_live_covers start (wrap64 (start + ln)) (reorder ks st.cache) [] st.occ
+  generalize setLoop start (wrap64 (start + ln)) (reorder ks st.cache) [] st.occ none = r at hc
+  obtain ⟨e1, c1, o1⟩ := r
+  rcases hc with h | ⟨h, en, hen, hcov⟩
+  · simp only at h; subst h
+    refine ⟨⟨start, wrap64 (start + ln), v⟩, by simp, ?_⟩
+    simp only [invalidB, Bool.or_eq_false_iff, decide_eq_false_iff_not] at hval
+    simp [containsB]
+  · simp only at h; subst h
+    exact ⟨en, hen, hcov⟩
+
+/-- with a live context the read-locked half of `GetRange` hits exactly when some cached entry covers the range -/
+theorem check_live (file : Bytes) (ks : Order) (st : State) (hinv : Inv file st) (start ln : Int)
+    (hF : IsI64 (file.length : Int)) (hs : IsI64 start) (hl : IsI64 ln)
+    (h0 : 0 ≤ start) (h1 : 0 ≤ ln) (h2 : start + ln ≤ (file.length : Int)) :
+    check ks none (file.length : Int) st start ln =
+      if st.cache.any (fun en => containsB en.s en.e start (start + ln)) then some (.ok (slice file start.toNat ln.toNat))
+      else none := by
+  have hv : invalidB start (wrap64 (start + ln)) (file.length : Int) = false := by
+    simp only [invalidB, Bool.or_eq_false_iff, decide_eq_false_iff_not]
+    unfold wrap64; unfold IsI64 at hs hl hF; omega
+  obtain ⟨he, _, _, _⟩ := wrap64_valid start ln _ hs hl hv
+  have hv2 := hv
+  rw [he] at hv2
+  have hnl : ¬ (start + ln - start > (file.length : Int)) := by omega
+  have e1 : (start + ln - start).toNat = ln.toNat := by congr 1; omega
+  have hl' := lookup_live file ks st hinv start (start + ln) (by omega)
+  cases hany : st.cache.any (fun en => containsB en.s en.e start (start + ln)) with
+  | true =>
+    rw [hany, if_pos rfl] at hl'
+    simp only [check, he, hv2, hl']
+    simp only [Bool.false_eq_true, if_false, hnl, if_true]
+    rw [finish_slice file start (start + ln) ⟨h0, by omega, h2⟩, e1]
+  | false =>
+    rw [hany, if_neg (by simp)] at hl'
+    simp only [check, he, hv2, hl']
+    simp [hnl]
 
 end RC
